@@ -221,10 +221,40 @@ def r_eqhash(ctx) -> None:
             continue
         ctx.check(not extra, 'R-EQHASH', ci.ref, f'{ci.qual}: everything the hash depends on {sorted(htoks)} is compared by equality {sorted(etoks)}', key=f'{ci.qual}:subset', loc=f'{ci.module.relpath}:{hash_node.lineno}')
     ctx.floor('R-EQHASH', n, 6)
+    # schemas are ordered: equality compares the fields pairwise in order (the hash is an order-insensitive xor, so
+    # equality is the only thing that keeps permuted schemas apart)
+    seq = prog.func(f'{FRAME}:Source.Schema.__eq__')
+    zips = [c for c in core.calls_in(seq.node) if core.call_name(c) == 'zip' and [core.src(a) for a in c.args] in (['cls', 'other'], ['other', 'cls'])]
+    pairwise = False
+    for z in zips:
+        gen = next((a for a in core.ancestors(z) if isinstance(a, ast.GeneratorExp)), None)
+        if gen is not None and isinstance(gen.elt, ast.Compare) and isinstance(gen.elt.ops[0], ast.Eq) and isinstance(core.parent(gen), ast.Call) and core.call_name(core.parent(gen)) == 'all':
+            tg = gen.generators[0].target
+            if isinstance(tg, ast.Tuple) and {core.src(gen.elt.left), core.src(gen.elt.comparators[0])} == {core.src(e) for e in tg.elts}:
+                pairwise = True
+    ctx.check(pairwise, 'R-EQHASH', seq, 'Schema equality compares the fields pairwise in declaration order (permuted schemas are different schemas)', seq.node, key='Schema:positional')
     # element-wise equalities must not truncate
     for ci in prog.classes.values():
         if ci.module.name in FAMILY_MODULES and '__eq__' in ci.methods:
             shared.r_zipeq(ctx, prog.func(f'{ci.ref}.__eq__'), 'R-ZIPEQ')
+
+
+def singletons(ctx) -> None:
+    """Kind singletons are per class: the memoised instance must live in a per-class closure (or the class's own
+    __dict__), never behind hasattr/getattr on the class - those see the instance inherited from a parent kind, so
+    Timestamp() would return the Date instance once Date() exists (identity depending on what else exists)."""
+    prog = ctx.prog
+    meta = prog.func(f'{KIND}:Singleton.__new__')
+    inner = [n for n in ast.walk(meta.node) if isinstance(n, core.FUNC) and n is not meta.node]
+    ok = bool(inner)
+    for fn in inner:
+        nonlocals = {n for s in ast.walk(fn) if isinstance(s, ast.Nonlocal) for n in s.names}
+        uses_inherited = any(isinstance(c, ast.Call) and core.call_name(c) in ('hasattr', 'getattr') and c.args and core.src(c.args[0]) in ('cls', 'mcs') for c in ast.walk(fn))
+        own_dict = '__dict__' in core.src(fn) or 'vars(cls)' in core.src(fn)
+        ok = ok and (bool(nonlocals) or own_dict) and not uses_inherited
+    ctx.check(ok, 'C08.singleton', meta, 'the singleton instance of a kind is memoised per class (closure variable / own __dict__), not through inherited attribute lookup', meta.node, key='Singleton:per-class')
+    anyeq = prog.func(f'{KIND}:Any.__eq__')
+    ctx.check(core.src(anyeq.body[-1]) == 'return other.__class__ == self.__class__', 'C08.singleton', anyeq, 'kinds are equal exactly when they are of the same kind class', anyeq.node, key='Any.__eq__')
 
 
 def _same_lineage(prog, names: list[str], fam: list[core.ClassInfo]) -> bool:
@@ -272,6 +302,24 @@ def r_pickle(ctx) -> None:
                 if cnt is not None:
                     ctx.check(required <= cnt <= len(params), 'R-PICKLE', ci.ref, f'{ci.qual}.__getnewargs__ returns {cnt} constructor argument(s) for __new__({", ".join(params)})', key=f'{ci.qual}:getnewargs-arity', loc=f'{ci.module.relpath}:{g.lineno}')
     ctx.floor('R-PICKLE', n, 10)
+    # plain tuple subclasses of the kind family: the default tuple pickling re-applies __new__ to ONE argument (the whole
+    # content), so a custom constructor needs its own __getnewargs__/__getnewargs_ex__/__reduce__
+    m = 0
+    for ci in prog.classes.values():
+        if ci.module.name != KIND:
+            continue
+        ext = ci.external_bases()
+        if 'tuple' not in ext or any(b.endswith('namedtuple') for b in ext):
+            continue
+        new = ci.methods.get('__new__')
+        if new is None or ci.abstract_names():
+            continue
+        m += 1
+        red = ci.lookup('__getnewargs__') or ci.lookup('__getnewargs_ex__') or ci.lookup('__reduce__') or ci.lookup('__reduce_ex__')
+        ctx.check(red is not None, 'R-PICKLE', ci.ref, f'{ci.qual}: tuple subclass with constructor ({", ".join(a.arg for a in new.args.args[1:])}{"**" + new.args.kwarg.arg if new.args.kwarg else ""}) provides its constructor arguments for unpickling (the tuple default passes the content as a single argument)', key=f'{ci.qual}:tuple-getnewargs', loc=f'{ci.module.relpath}:{new.lineno}')
+        if new.args.kwarg is not None and not new.args.args[1:]:
+            ctx.check(ci.lookup('__getnewargs_ex__') is not None or ci.lookup('__reduce__') is not None, 'R-PICKLE', ci.ref, f'{ci.qual}: keyword-only constructor needs __getnewargs_ex__', key=f'{ci.qual}:tuple-getnewargs-ex', loc=f'{ci.module.relpath}:{new.lineno}')
+    ctx.floor('R-PICKLE.kinds', m, 3)
     # copyreg reducers for metaclass-made classes
     fmod = prog.module(FRAME)
     regs = [c for c in ast.walk(fmod.tree) if isinstance(c, ast.Call) and core.call_name(c) == 'copyreg.pickle']
@@ -314,6 +362,7 @@ def run(ctx) -> None:
     tenv = types.TypeEnv(ctx.prog)
     r_hasheq(ctx)
     r_eqhash(ctx)
+    singletons(ctx)
     r_pickle(ctx)
     identity_repr(ctx, tenv)
     cache_census(ctx)
